@@ -3,7 +3,7 @@
 import json, subprocess
 CLAIMED = {
  "C01": ("catch_unwind/abort monitor over exhaustive + random hostile inputs, both overflow-check configurations",
-         "exploration", "Every call crosses the recording boundary under catch_unwind in worker processes; a panic, a process abort (pinned on the input by a trace-mode re-run) is a violation. Exhaustive over short token/character sequences, random and mutated beyond; held-on-observed, not a proof over all 256-char strings.",
+         "exploration", "Every call crosses the recording boundary under catch_unwind in worker processes; a panic, or a process abort (pinned on the input by a trace-mode re-run), is a violation. Exhaustive over short token/character sequences, random and mutated beyond; held-on-observed, not a proof over all 256-char strings.",
          "8 MiB stack; Rust panic=unwind; sanitizer sub-runs (ASan, Miri, valgrind) in the thorough tier", "§5 C01"),
  "C02": ("step-counter invariant hook (verif_hooks tick budget) + CPU-time watchdog",
          "exploration", "Each call is armed with a budget of exactly 4096+256*len counted steps through the cfg-guarded counter; exceeding it, or consuming more than the CPU backstop in one call, is a violation. Workloads aim every looping construct at extreme arguments.",
@@ -11,6 +11,51 @@ CLAIMED = {
  "C03": ("reference-model monitor: independent lexer + recursive-descent recogniser",
          "exploration", "Every outcome is compared with an independently written recogniser of the grammar: Ok on a rejected string, or Err on an accepted string inside the defined core, is a violation. Exhaustive over bounded token and character sequences, random near-misses beyond.",
          "the reference grammar (DESIGN §3.1/3.2) is the specification; unspecified groupings after postfix operators give no verdict", "§5 C03"),
+ "C04": ("reference-model monitor: exhaustive operator skeletons with discriminating operands vs reference tree evaluation",
+         "exploration", "Every accepted operator/operand/bracket sequence up to the stated length (so every pair and triple of adjacent operators) is evaluated under three operand assignments and compared with the exact value of the independently derived tree; random trees beyond.",
+         "reference grammar and exact reference arithmetic are the specification; operands are chosen to discriminate groupings", "§5 C04"),
+ "C05": ("reference-model monitor: libm-through-FFI node-by-node evaluation, bit-exact comparison",
+         "exploration", "Depth-1 sweep of every listed IEEE operation over all pairs of a boundary pool (subnormals, 2^53 neighbours, huge, NaN/inf via @) and random trees to depth 6, compared bit for bit with the host C library applied node by node.",
+         "host libm = IEEE/C oracle; literal conversion trusted here and checked separately in C19", "§5 C05"),
+ "C06": ("reference-model monitor (i128 exact arithmetic) + cross-configuration outcome digests",
+         "exploration", "Exhaustive depth-1/2 over the i64 boundary pool and random trees against exact i128 arithmetic (value, must-Err, value-or-Err); every outcome is also digested per block and the digests of the overflow-checked and release builds must be identical.",
+         "i128 arithmetic; the two cargo profiles reproduce overflow-checks on/off", "§5 C06"),
+ "C07": ("reference-model monitor: exact rational arithmetic on own big integers",
+         "exploration", "Depth-1 over a scale/magnitude boundary pool and random operands, trees over + - * with / % near the root, judged against exact rationals: representable results exact, quotients within 1e-27, zero divisors and out-of-range results Err (panic = violation).",
+         "harness big-integer/rational code (unit-tested) is the oracle; in-range results needing rounding give no verdict", "§5 C07"),
+ "C08": ("reference-model monitor (own complex pair arithmetic) + differential against eval_f64",
+         "exploration", "Literal forms, depth-1 applications of every operator and function on generic operands against principal-branch definitions built from real functions, exact component formulas for + - *, and real operands compared with eval_f64 through the public API.",
+         "harness complex formulas (cross-checked with mpmath during development); generic operands only for tolerance-checked functions", "§5 C08"),
+ "C09": ("reference-model monitor: typed reference with sets of acceptable (variant, value) results + cross-configuration digests",
+         "exploration", "Exhaustive depth-1 over a typed Integer/Float pool, a dense sweep of the rounding functions and random typed trees against a reference doing Integer steps in i128 and Float steps in IEEE doubles; a panic is a violation; both build configurations compared.",
+         "variant is left free wherever the statement leaves it free", "§5 C09"),
+ "C10": ("reference-model monitor: every (evaluator, spelling) x dense argument grid vs libm/tgamma/exact/identity oracles with coverage floors",
+         "exploration", "The finite vocabulary is enumerated completely; each name is applied to arguments from a domain-aware mixture (edges, ulps, large, negative), injected as literals and via @, and judged with the statement's tolerances; a run that leaves any name under its hit floor is inconclusive.",
+         "host libm and tgamma; conditioning guard removes ill-conditioned points; ilog unspecified", "§5 C10"),
+ "C11": ("multiset oracle + permutation metamorphic monitor",
+         "exploration", "All short argument lists over a small pool, random lists up to 8 over boundary pools, all permutations of lists up to 5, empty lists and failing arguments in every position, for every aggregate of the four evaluators.",
+         "oracle computed from the multiset; running-sum overflow unspecified", "§5 C11"),
+ "C12": ("metamorphic monitor: implicit vs explicit `(A*(R))` rendering + recogniser for forbidden juxtapositions",
+         "exploration", "Random trees and an exhaustive left x right x suffix x context family are rendered with implicit products and with one/all products made explicit; outcomes must be identical; forbidden juxtapositions must be Err.",
+         "the reference parser decides what R is", "§5 C12"),
+ "C13": ("metamorphic monitor over the rewrite catalogue (whitespace, aliases, bracket/function/superscript/plus/paren rewrites)",
+         "exploration", "Well-formed and malformed inputs are compared with their rewritten spellings (all 25 White_Space characters, every alias, every structural rewrite of the statement at a random applicable site); outcome class and Ok bits must match.",
+         "no oracle; structural rewrites applied only where the reference grammar confirms the rewritten text is a sentence", "§5 C13"),
+ "C14": ("metamorphic literal-substitution monitor + bound-placeholder reference",
+         "exploration", "`@` alone over the hostile placeholder pool must return the caller's bits; expressions with several `@` must equal the same expression with `@` replaced by a literal spelling of the value, or the reference with `@` bound when no spelling exists.",
+         "literal spellings are exact by construction (checked by C19)", "§5 C14"),
+ "C15": ("differential monitor: one rendering evaluated by two evaluators inside the restricted shared domain",
+         "exploration", "i64 vs number on integer trees, f64 vs number on the shared grammar, complex vs f64 on real operands, decimal vs f64 on positive well-conditioned trees; the reference only decides the restriction.",
+         "restriction decided by a plain double evaluation and the i64 reference", "§5 C15"),
+ "C18": ("reference-model monitor: bit-level decode of the double",
+         "exploration", "Number::from on the complete structured boundary set (every power of two +-2 ulp, 2^63 neighbourhood, zeros, subnormals, NaNs, infinities) and millions of random bit patterns biased to the deciding exponent range; expected variant and payload computed with integer arithmetic.",
+         "exhaustive on the structured set only", "§5 C18"),
+ "C19": ("reference-model monitor: big-integer correct-rounding check + print/re-read metamorphic monitor",
+         "exploration", "All short literals, long digit runs with every point position and halfway cases are checked to denote the correctly rounded double / exact integer / exact decimal; printed results of pool values, random bit patterns and small expressions are read back.",
+         "rounding decided with big integers, independent of str::parse", "§5 C19"),
+ "C20": ("metamorphic monitor: E, C[(E)] and C[@:=value] through the public API",
+         "exploration", "Random (context, subexpression) pairs whose trees differ only at the hole; the context evaluated with the bracketed subexpression and with its value as placeholder must agree bit for bit.",
+         "no oracle; pairs where the hole changes implicit-product eligibility are excluded as the statement says", "§5 C20"),
 }
 PENDING_REASON = "check not built yet in this round (planned: DESIGN.md §5)"
 props=[json.loads(l)["id"] for l in open("/verif/properties.jsonl")]
